@@ -95,3 +95,88 @@ Example ex_vhdl_accepted : check_cert MRefine exD_wired exL ex_sched ex_ws (ex_l
 Proof. vm_compute. reflexivity. Qed.
 Example ex_vhdl_inverted_reset_rejected : check_cert MRefine exD_wired exL_bad ex_sched ex_ws (ex_layers exD_wired exL_bad) = false.
 Proof. vm_compute. reflexivity. Qed.
+
+(* ---- the lifter's node patterns compute the two-valued VHDL operators (VhdlSemDefs / VhdlSemProofs) ----
+   vec w v = the two-valued vector of length w holding v.  For operands of EVERY length: *)
+From Coq Require Import NArith.
+From Gatery Require Import VhdlSemDefs VhdlSemProofs NodeSemSpec.
+
+(* UNSIGNED "+": zero-extend both operands to max(len) and add modulo 2^max(len)  (numeric_std) *)
+Theorem C02_lift_add : forall wa wb a b, (a < p2 wa)%N -> (b < p2 wb)%N ->
+  lift_add wa wb (vec wa a) (vec wb b) = vecp (ns_add wa wb a b).
+Proof. exact lift_add_sound. Qed.
+Print Assumptions C02_lift_add.
+
+Theorem C02_lift_sub : forall wa wb a b, (a < p2 wa)%N -> (b < p2 wb)%N ->
+  lift_sub wa wb (vec wa a) (vec wb b) = vecp (ns_sub wa wb a b).
+Proof. exact lift_sub_sound. Qed.
+Print Assumptions C02_lift_sub.
+
+(* UNSIGNED "*": result length = sum of the lengths, the exact product *)
+Theorem C02_lift_mul : forall wa wb a b, (a < p2 wa)%N -> (b < p2 wb)%N ->
+  lift_mul wa wb (vec wa a) (vec wb b) = vecp (ns_mul wa wb a b).
+Proof. exact lift_mul_sound. Qed.
+Print Assumptions C02_lift_mul.
+
+(* RESIZE: truncation keeps the low bits, extension pads zeros *)
+Theorem C02_lift_resize : forall w n v, (v < p2 w)%N -> lift_resize w n (vec w v) = vecp (ns_resize n v).
+Proof. exact lift_resize_sound. Qed.
+Print Assumptions C02_lift_resize.
+
+(* a & b: the left operand is the most significant part *)
+Theorem C02_lift_concat : forall wa wb a b, (b < p2 wb)%N ->
+  lift_concat wa wb (vec wa a) (vec wb b) = vecp (vh_concat wa wb a b).
+Proof. exact lift_concat_sound. Qed.
+Print Assumptions C02_lift_concat.
+
+(* x(hi downto lo) and x(i) *)
+Theorem C02_lift_slice : forall w v hi lo, lo <= hi -> hi < w ->
+  lift_slice hi lo (vec w v) = vecp (vh_slice hi lo v).
+Proof. exact lift_slice_sound. Qed.
+Print Assumptions C02_lift_slice.
+
+Theorem C02_lift_index : forall w v i, i < w -> lift_index i (vec w v) = [of_bool (vh_index i v)].
+Proof. exact lift_index_sound. Qed.
+Print Assumptions C02_lift_index.
+
+(* = /= < <= > >= on UNSIGNED of any two lengths: the numeric comparison *)
+Theorem C02_lift_rel : forall op wa wb a b, (a < p2 wa)%N -> (b < p2 wb)%N ->
+  lift_rel op wa wb (vec wa a) (vec wb b) = [of_bool (cmp_N op a b)].
+Proof. exact lift_rel_sound. Qed.
+Print Assumptions C02_lift_rel.
+
+(* SHIFT_LEFT / SHIFT_RIGHT (x, to_integer(n)): zero fill, length unchanged *)
+Theorem C02_lift_shift_left : forall w wn a n, (a < p2 w)%N -> (n < p2 wn)%N -> wn <= 64 ->
+  lift_shl w (vec w a) (vec wn n) = vecp (ns_shift_left w a n).
+Proof. exact lift_shl_sound. Qed.
+Print Assumptions C02_lift_shift_left.
+
+Theorem C02_lift_shift_right : forall w wn a n, (a < p2 w)%N -> (n < p2 wn)%N -> wn <= 64 ->
+  lift_shr w (vec w a) (vec wn n) = vecp (ns_shift_right w a n).
+Proof. exact lift_shr_sound. Qed.
+Print Assumptions C02_lift_shift_right.
+
+(* IF c THEN t ELSE e;  CASE sel IS WHEN "0.." => d0 .. WHEN OTHERS: the selected branch; a selector
+   value without WHEN branch (non-total mux) gives the all-X of OTHERS *)
+Theorem C02_lift_if : forall w c t e, length t = w -> length e = w -> lift_if w c t e = if c then t else e.
+Proof. exact lift_if_sound. Qed.
+Print Assumptions C02_lift_if.
+
+Theorem C02_lift_case : forall n w ws s ds, (s < p2 ws)%N -> length ds = n -> Forall (fun d => length d = w) ds ->
+  lift_case n w (vec ws s) ds = if (N.of_nat n <=? s)%N then all_X w else nth (N.to_nat s) ds (all_X w).
+Proof. exact lift_case_sound. Qed.
+Print Assumptions C02_lift_case.
+
+(* and or xor nand nor xnor not on vectors: bit-wise *)
+Theorem C02_lift_logic : forall op w a b, (a < p2 w)%N -> (b < p2 w)%N ->
+  eval (KLogic op w) [Some (vec w a); Some (vec w b)] = [vec w (logic_N op w a b)].
+Proof. exact lift_logic_sound. Qed.
+Print Assumptions C02_lift_logic.
+
+(* non-vacuity: mixed-length addition "011" + "11111" = "00010" (3 + 31 mod 32), product "11" * "111" = "10101" *)
+Example ex_add_mixed : lift_add 3 5 (vec 3 3) (vec 5 31) = vec 5 2.
+Proof. vm_compute. reflexivity. Qed.
+Example ex_mul_full : lift_mul 2 3 (vec 2 3) (vec 3 7) = vec 5 21.
+Proof. vm_compute. reflexivity. Qed.
+Example ex_slice : lift_slice 3 1 (vec 5 22) = vec 3 3.      (* "10110"(3 downto 1) = "011" *)
+Proof. vm_compute. reflexivity. Qed.
